@@ -7,7 +7,7 @@ namespace Driver.PtrEng
 open Rlbox Driver
 
 def base0 : Nat := 0x6a0000000000
-def stride : Nat := 0x400000000
+def stride : Nat := 0x400030000
 def K : Nat := 16
 def regionOf (i : Nat) : Region := ⟨K, base0 + i * stride⟩
 
